@@ -7,7 +7,7 @@ ATOMS = ["", "*", "+", "-", "0", "1", "10", "-1", "1$", "$", "A", "a", "ACGT", "
          "A+ B-", "xx:i:1", "xx:Z:", "xx:J:{", "xx:J:[", "xx:J:1", "xx:H:1", "xx:H:zz", "xx:B:c", "xx:B:c,", "xx:B:x,1",
          "xx:f:.", "xx:f:e", "xx:i:", "x:i:1", "xxx:i:1", "xx:q:1", "xx:A:ab", "VN:Z:1.0", "VN:Z:2.0", "VN:Z:3.0",
          "VN:i:1", "TS:i:x", "TS:Z:1", "LN:i:-1", "LN:Z:x", "ID:Z:A", "ID:i:1", " ", "\x7f", "\x00", "é", "５",
-         " ", "é", "1e5", "inf", "nan", "0x10", "1_0", "١", "٣M", "²", "1" * 40, "A" * 300, "[" * 60 + "]" * 60,
+         " ", "é", "1e5", "inf", "nan", "0x10", "1_0", "١", "٣M", "²", "1" * 40, "1" * 5000, "A" * 300, "[" * 60 + "]" * 60,
          "xx:J:" + "[" * 200 + "]" * 200, "xx:J:" + '{"a":' * 50 + "1" + "}" * 50, "\r", "a\rb", "a\x0bb"]
 PRINT = "".join(chr(c) for c in range(0x20, 0x7f))
 
@@ -65,8 +65,29 @@ def mutate_line(rng, line):
     return "\t".join(f)
 
 
+def cyclic_groups_doc(rng):
+    """syntactically valid GFA2 whose groups refer to each other / to themselves (invalid input)."""
+    lines = ["S\ta\t10\t*", "S\tb\t10\t*", "S\tc\t10\t*", "E\te1\ta+\tb+\t7\t10$\t0\t3\t*",
+             "E\te2\tb+\tc+\t7\t10$\t0\t3\t*"]
+    k = rng.randrange(5)
+    if k == 0:
+        lines += ["O\to1\to2+ a+", "O\to2\to1+ b+"]
+    elif k == 1:
+        lines += ["U\tu1\tu2 a", "U\tu2\tu1 b"]
+    elif k == 2:
+        lines += ["O\to1\to1+ a+"]
+    elif k == 3:
+        lines += ["O\to1\to2+ a+", "O\to2\to3- b+", "O\to3\to1+ c+", "U\tu1\to1 o2"]
+    else:
+        lines += ["U\tu1\tu1", "U\tu2\tu1 u2 a"]
+    rng.shuffle(lines)
+    return lines
+
+
 def hostile_doc(rng):
     k = rng.random()
+    if k < 0.06:
+        return cyclic_groups_doc(rng)
     if k < 0.3:
         return [hostile_line(rng) for _ in range(rng.randint(0, 6))]
     d = G.gen_doc(rng, canonical=rng.random() < 0.5)
